@@ -475,11 +475,11 @@ def r_loops(ck: Checker) -> None:
 
 
 RULES = [
-    Rule("C03.KIND", P + ("C09",), r_kinds),
+    Rule("C03.KIND", P, r_kinds),
     Rule("C03.KIND.optderef", P + ("C12",), r_optderef),
     Rule("C03.THROW", P, r_throw),
-    Rule("C03.THROW.domain", P + ("C20",), r_domain_calls),
-    Rule("C03.THROW.containment", P + ("C14",), r_containment),
+    Rule("C03.THROW.domain", P, r_domain_calls),
+    Rule("C03.THROW.containment", P, r_containment),
     Rule("C03.MYPY", P, r_mypy),
     Rule("C03.LOOP", P, r_loops),
 ]
